@@ -11,13 +11,19 @@ Regenerated from the current source on every run of ``./check C12``:
 * the ``key == "..."`` dispatch of ``read_header`` as an association list
   key -> header variable;
 * the two guards that follow the field loop (PCM inference and the
-  mandatory-field rejection) as boolean terms over Python truthiness;
-* constants of ``copy_samples``: the read size ``buf_size``, the shorten magic,
-  the ``sampsize -> in_type`` chain as a list (itemsize, (bits, signed)).
+  mandatory-field rejection) as boolean terms over Python truthiness, always
+  over all six header variables;
+* constants and decisions of ``copy_samples``: the read size ``buf_size``, the
+  shorten magic, the ``sampsize -> in_type`` chain as a list (itemsize, (bits,
+  signed)), the law set of the two ``samptype in {...}`` tests, the default dtype
+  for the laws, the ``convert`` rule, the big-endian tag and the table selection.
 
-Fail closed: any construct that is not recognised raises ``Unsupported`` and
-the check treats the tie as broken.  The loop of ``copy_samples`` and the
-tokenising of the header are modelled by hand and tied by the correspondence.
+Fail closed: when one of these cannot be located or has an unrecognised form,
+``Unsupported`` is raised and the check treats the tie as broken.  Statements the
+model does not take anything from (the ``try`` around the size line, the
+tokenising block, the ``sampsize`` default, the ``return``) are deliberately not
+pattern-matched: they and the loop of ``copy_samples`` are modelled by hand and
+tied by the correspondence, so refactoring them does not break the translator.
 """
 
 import ast
